@@ -17,6 +17,7 @@ counterexample is proved beside it:
 -/
 import PoetryVerif.Proofs.EqHashAllows
 import PoetryVerif.Proofs.EqHashMarker
+import PoetryVerif.Proofs.EqHashDep
 import PoetryVerif.Proofs.VersionParse
 
 set_option linter.unusedSimpArgs false
@@ -251,5 +252,88 @@ theorem counterexample_marker_incoherent :
 theorem swapped_operands_not_equal (n o v : String) (c c' : LeafC) :
     M.beq (.leaf (.single ⟨n, o, v, true, c⟩)) (.leaf (.single ⟨n, o, v, false, c'⟩)) = false := by
   simp [M.beq, Leaf.beq]
+
+/-! ## package specifications, dependencies, packages
+
+`PackageSpecification.__eq__` is `is_same_package_as`: equal complete names (canonical name + sorted extras) and
+`is_same_source_as`, a *tolerance* relation on VCS references (prefix matching of references, equal resolved
+references win, an absent resolved reference matches any).  It is reflexive and symmetric; transitive exactly
+when references are compared exactly (`refsExact`). -/
+
+theorem specification_beq_refl (a : Dep.Spec) : a.beq a = true := spec_beq_refl a
+theorem specification_beq_symm (a b : Dep.Spec) (h : a.beq b = true) : b.beq a = true := spec_beq_symm h
+theorem specification_beq_trans (a b c : Dep.Spec) (hg : refsExact [a, b, c]) (h1 : a.beq b = true)
+    (h2 : b.beq c = true) : a.beq c = true := spec_beq_trans hg h1 h2
+theorem specification_beq_hash (a b : Dep.Spec) (ha : specNormal a = true) (hb : specNormal b = true)
+    (h : a.beq b = true) : specHash a = specHash b := specHash_eq ha hb h
+
+theorem dependency_beq_refl (d : Dep.Dep) : d.beq d = true := dep_beq_refl d
+theorem dependency_beq_symm (a b : Dep.Dep) (ha : vcNonDegenerate a.constraint = true)
+    (hb : vcNonDegenerate b.constraint = true) (h : a.beq b = true) : b.beq a = true := dep_beq_symm ha hb h
+theorem dependency_beq_trans (a b c : Dep.Dep) (hg : refsExact [a.spec, b.spec, c.spec])
+    (ha : vcNonDegenerate a.constraint = true) (hb : vcNonDegenerate b.constraint = true)
+    (hc : vcNonDegenerate c.constraint = true) (h1 : a.beq b = true) (h2 : b.beq c = true) : a.beq c = true :=
+  dep_beq_trans hg ha hb hc h1 h2
+/-- `Dependency.__hash__` is the specification's hash -/
+theorem dependency_beq_hash (a b : Dep.Dep) (ha : specNormal a.spec = true) (hb : specNormal b.spec = true)
+    (h : a.beq b = true) : depHash a = depHash b := by
+  simp only [Dep.Dep.beq, Bool.and_eq_true] at h
+  exact specHash_eq ha hb h.1
+/-- equal dependencies that are not direct-origin ones carry equal constraints, hence admit the same versions
+(`constraint_beq_interchangeable_partial`) -/
+theorem dependency_beq_interchangeable (a b : Dep.Dep) (h : a.beq b = true) (hd : a.spec.isDirectOrigin = false) :
+    a.spec.completeName = b.spec.completeName ∧ Marker.VC.eqv a.constraint b.constraint = true := by
+  simp only [Dep.Dep.beq, Bool.and_eq_true, Bool.or_eq_true, vcEq_eq, hd, Bool.false_eq_true, or_false] at h
+  exact ⟨((spec_beq_iff _ _).1 h.1).1.symm, h.2⟩
+
+theorem package_beq_hash (a b : Pkg) (ha : specNormal a.spec = true) (hb : specNormal b.spec = true)
+    (h : a.beq b = true) : pkgHash a = pkgHash b := by
+  simp only [Pkg.beq, Bool.and_eq_true] at h
+  simp [pkgHash, specHash_eq ha hb h.1, (version_beq_hash _ _).1 h.2]
+
+def gitSpec (ref : String) (resolved : Option String) : Dep.Spec :=
+  { prettyName := "foo", name := "foo", sourceType := some "git", sourceUrl := some "https://github.com/a/b.git",
+    sourceReference := some ref, sourceResolvedReference := resolved, sourceSubdirectory := none, features := [] }
+
+example : refsExact [gitSpec "main" none, gitSpec "main" none, gitSpec "dev" none] := by
+  refine ⟨by intro a ha; simp at ha; rcases ha with rfl | rfl <;> rfl, ?_⟩
+  intro a ha b hb
+  simp only [List.mem_cons, List.mem_nil_iff, or_false, or_self_left] at ha hb
+  rcases ha with rfl | rfl <;> rcases hb with rfl | rfl <;> decide
+
+/-- **D16** (known finding `vcs-reference-prefix-equality`): `@abc` equals `@abcdef` and `@abcxyz`, which differ -/
+theorem counterexample_reference_prefix :
+    ¬ (∀ a b c : Dep.Spec, a.beq b = true → b.beq c = true → a.beq c = true) := by
+  intro h
+  have := h (gitSpec "abcdef" none) (gitSpec "abc" none) (gitSpec "abcxyz" none) (by decide) (by decide)
+  revert this; decide
+
+/-- the same relation through resolved references (known finding `vcs-resolved-reference-equality`), without any
+prefix: `main` == `main` resolved to `abcdef0` == rev `abcdef0` resolved to `abcdef0`, but `main` != rev `abcdef0` -/
+theorem counterexample_resolved_reference :
+    ¬ (∀ a b c : Dep.Spec, (∀ x ∈ [a, b, c], ∀ y ∈ [a, b, c],
+        Dep.startsWithS (x.sourceReference.getD "") (y.sourceReference.getD "") = true →
+          x.sourceReference.getD "" = y.sourceReference.getD "") →
+        a.beq b = true → b.beq c = true → a.beq c = true) := by
+  intro h
+  have := h (gitSpec "main" none) (gitSpec "main" (some "abcdef0")) (gitSpec "abcdef0" (some "abcdef0"))
+    (by
+      intro x hx y hy
+      simp only [List.mem_cons, List.mem_nil_iff, or_false] at hx hy
+      rcases hx with rfl | rfl | rfl <;> rcases hy with rfl | rfl | rfl <;> decide)
+    (by decide) (by decide)
+  revert this; decide
+
+/-- **hash coherence fails for a falsy-but-not-None field (genuine defect, reachable through
+`foo @ https://example.com/a.zip#subdirectory=`)**: `''` and `None` compare as the same sub-directory and hash
+differently -/
+theorem counterexample_empty_subdirectory :
+    ¬ (∀ a b : Dep.Spec, a.beq b = true → specHash a = specHash b) := by
+  intro h
+  let u : Option String → Dep.Spec := fun d =>
+    { prettyName := "foo", name := "foo", sourceType := some "url", sourceUrl := some "https://example.com/a.zip",
+      sourceReference := none, sourceResolvedReference := none, sourceSubdirectory := d, features := [] }
+  have := h (u (some "")) (u none) (by decide)
+  simp [specHash, u, Dep.truthy, optStrHash] at this
 
 end Poetry.C18
